@@ -257,7 +257,12 @@ class Mask(Generic[R], Pytree):
         else:
 
             def inner(true_v: ArrayLike, false_v: ArrayLike) -> Array:
-                return jnp.where(self.primal_flag(), true_v, false_v)
+                # A vectorized flag selects along the leading axes of the leaves.
+                flag = self.primal_flag()
+                extra = jnp.ndim(true_v) - jnp.ndim(flag)
+                if jnp.ndim(flag) > 0 and extra > 0:
+                    flag = jnp.reshape(flag, jnp.shape(flag) + (1,) * extra)
+                return jnp.where(flag, true_v, false_v)
 
             return jtu.tree_map(inner, self.value, default)
 
